@@ -55,6 +55,8 @@ def replay_segy(req, tmp):
         bool(o.get('reduce_iops')), o.get('detection', 'heuristic'))
     try:
         with SegyConverter(sgy, **kw) as conv:
+            if o.get('runs') == 2:
+                quiet(conv.run, os.path.join(tmp, 'first.sgz'), bits_per_voxel=4, blockshape=(1, 16, -1) if kind == '2d' else (4, 4, -1))
             quiet(conv.run, sgz, bits_per_voxel=o.get('bpv_in', rate), blockshape=tuple(o.get('bs_in', bs)),
                   reduce_iops=bool(o.get('reduce_iops')), header_detection=o.get('detection', 'heuristic'))
     except Exception as e:
